@@ -11,6 +11,7 @@ import (
 type absOp struct {
 	op      string
 	i, a, b int
+	hrw     int // > 0: i is a rank in the HRW order of object hrw-1 (resolved when the operation runs)
 }
 
 type plan struct {
@@ -27,6 +28,9 @@ func genC20(seed uint64, idx int, withGC bool) *plan {
 	r := newRng(seed*1000003 + uint64(idx)*7919 + 17)
 	p := &plan{idSeed: r.u64()}
 	p.n = []int{1, 2, 2, 2, 3, 3, 3, 4}[r.intn(8)]
+	if idx%4 == 3 && p.n < 2 {
+		p.n = 2 // the scripted opening (lostOpening) needs two holders
+	}
 	p.thr = []int{0, 0, 1, 2, 3}[r.intn(5)]
 	const maxEpoch = 6
 	p.u = newUniverse(r, 5, 2, 2, 3, maxEpoch)
@@ -35,6 +39,16 @@ func genC20(seed uint64, idx int, withGC bool) *plan {
 	epoch := 0
 	nops := 25 + r.intn(25)
 	stored := []int{}
+	// A second stream decides the read flavour (Get / GetBytes / GetStream) and where data is
+	// lost, so that the operation choice of the first stream is what it was before these existed.
+	r2 := newRng(seed*2000003 + uint64(idx)*104723 + 29)
+	read := func() string { return []string{"get", "get", "getb", "gets"}[r2.intn(4)] }
+	if idx%4 == 3 {
+		x := r2.intn(5)
+		p.ops = append(p.ops, lostOpening(r2, p.n, x, idx/4)...)
+		stored = append(stored, x)
+		nops = 12 + r.intn(14)
+	}
 	// related picks an object tied to something already put (its tombstone, lock, or target)
 	related := func() int {
 		if len(stored) == 0 || r.coin(1, 3) {
@@ -63,7 +77,7 @@ func genC20(seed uint64, idx int, withGC bool) *plan {
 			p.ops = append(p.ops, absOp{op: "put", i: i})
 			stored = append(stored, i)
 		case w < 52:
-			p.ops = append(p.ops, absOp{op: "get", i: related()})
+			p.ops = append(p.ops, absOp{op: read(), i: related()})
 		case w < 60:
 			p.ops = append(p.ops, absOp{op: "head", i: related()})
 		case w < 68:
@@ -85,7 +99,7 @@ func genC20(seed uint64, idx int, withGC bool) *plan {
 			if withGC {
 				p.ops = append(p.ops, absOp{op: "gc", i: r.intn(nsh)})
 			} else {
-				p.ops = append(p.ops, absOp{op: "get", i: related()})
+				p.ops = append(p.ops, absOp{op: read(), i: related()})
 			}
 		default:
 			if nsh < 4 {
@@ -93,10 +107,14 @@ func genC20(seed uint64, idx int, withGC bool) *plan {
 				p.ops = append(p.ops, absOp{op: "addshard"})
 			}
 		}
+		// data loss: the data of a stored object vanishes from one shard (its metabase entry stays)
+		if len(stored) > 0 && r2.coin(1, 16) {
+			p.ops = append(p.ops, absOp{op: "lose", i: r2.intn(nsh), a: stored[r2.intn(len(stored))]})
+		}
 	}
 	// final sweep: read everything
 	for i := 0; i < nobj; i++ {
-		p.ops = append(p.ops, absOp{op: "get", i: i})
+		p.ops = append(p.ops, absOp{op: read(), i: i})
 	}
 	for i := 0; i < nobj; i++ {
 		if p.u.objs[i].Kind == kReg {
@@ -108,7 +126,14 @@ func genC20(seed uint64, idx int, withGC bool) *plan {
 
 func (v *env) run(u *universe, a absOp) op {
 	var o op
+	a = v.resolve(u, a)
 	switch a.op {
+	case "lose":
+		o = v.doLose(u, a.i, a.a)
+	case "getb":
+		o = v.doGetBytes(u, a.i)
+	case "gets":
+		o = v.doGetStream(u, a.i)
 	case "put":
 		o = v.doPut(u, a.i)
 	case "get":
